@@ -16,7 +16,7 @@ META = {
     "technique": "CrossHair symbolic execution of compile_block/compile_file/compile_include/Deferred.length/SizedDeferred/Concatenator with "
                  "symbolic base, sizes and data; z3 decides label values and the per-statement address invariant against a reference size model",
     "bounds": "programs of 1..4 statements (+labels, +probe table) per file over 20 statement kinds (incl. '.'-dependent operands after an extension word and a .repeat body whose size depends on its address); sizes N, K in 0..4 (quick) / 0..6 (thorough) (lengths are realised), "
-              "defined before or after their use; base: every value 0..65535 with base+length < 2^16; 1..3 linked files, include depth <= 2",
+              "defined before or after their use; '.link' at the start (eager evaluation) or at the end of the sources (base unknown while compiling: announced sizes drive the addresses); base: every value 0..65535 with base+length < 2^16; 1..3 linked files, include depth <= 2",
     "outside": ["programs longer than 4 statements per file", "sizes above 6", "the 21-program practice corpus (500-line programs are beyond the "
                 "tracing budget; not claimed)"],
     "structure": "quick: all single kinds and a seeded third of the ordered pairs in one file (thorough: all pairs) + multi-file/include placements; thorough: + seeded triples/quadruples",
@@ -163,11 +163,14 @@ def h_layout(params, vals, ctx):
     files = []
     for i, fk in enumerate(files_kinds, start=1):
         text = build_file(fk, i, params.get("nplace", "before"), params.get("kplace", "before"))
-        if i == 1:
+        if i == 1 and params.get("link_pos", "start") == "start":
             text = ".link {B}\n" + text
+        if i == 1 and params.get("link_pos") == "end-of-first":
+            text = text + ".link {B}\n"
         files.append((os.path.join(AUXDIR, f"f{i}.mac"), text))
     names = [f"F{i}L{j}" for i, fk in enumerate(files_kinds, start=1) for j in range(len(fk) + 1)]
-    files.append((os.path.join(AUXDIR, "probe.mac"), ".even\nPT: .word " + ", ".join(names) + "\n"))
+    files.append((os.path.join(AUXDIR, "probe.mac"), ".even\nPT: .word " + ", ".join(names) + "\n"
+                  + (".link {B}\n" if params.get("link_pos") == "end" else "")))
     o = assemble(files, vals, route=ctx.route, hook=params.get("hook", True))
     ctx.observe_outcome(o)
     ctx.reach(o.status == "ok")
@@ -229,6 +232,8 @@ def _ob(tag, files_kinds, **kw):
 
 def obligations(tier, seed):
     obs = [o for o in _obligations(tier, seed) if feasible(o.params["files"])]
+    # '. = X' while no base has been set is treated as '.link' by the assembler (outside the property as stated, see C12)
+    obs = [o for o in obs if o.params.get("link_pos", "start") == "start" or not any("skip" in fk for fk in o.params["files"])]
     if tier == "quick":
         for o in obs:
             o.params["max_size"] = 4
@@ -243,11 +248,16 @@ def _obligations(tier, seed):
             if place == "after" and not any(s in KINDS[k][0] for s in ("{NSYM}", "{KSYM}")):
                 continue
             obs.append(_ob(f"single/{k}/{place}", [[k]], nplace=place, kplace=place))
+            # the base is still unknown while the statements are compiled: announced sizes (SizedDeferred, Deferred.length)
+            # are what advances the addresses, contents come later
+            obs.append(_ob(f"single-late-link/{k}/{place}", [[k, "insn1"]], nplace=place, kplace=place, link_pos="end"))
+            obs.append(_ob(f"single-link-end-of-first/{k}/{place}", [[k], ["word"]], nplace=place, kplace=place, link_pos="end-of-first"))
     for a, b_ in itertools.product(ORDER, ORDER):
         if tier == "quick" and (ORDER.index(a) * 7 + ORDER.index(b_) * 3 + seed) % 3:
             continue  # quick: a seeded third of the ordered pairs; thorough: all of them
         place = "after" if (ORDER.index(a) + ORDER.index(b_)) % 2 else "before"
-        obs.append(_ob(f"pair/{a}+{b_}", [[a, b_]], nplace=place, kplace=place))
+        lp = "end" if (ORDER.index(a) * 5 + ORDER.index(b_)) % 2 else "start"
+        obs.append(_ob(f"pair/{a}+{b_}", [[a, b_]], nplace=place, kplace=place, link_pos=lp))
     # multi-file and include placements
     multi = [
         [["byte1", "even", "insn1"], ["word", "blkb"]],
@@ -259,7 +269,7 @@ def _obligations(tier, seed):
     ]
     for i, m in enumerate(multi):
         for place in ("before", "after"):
-            obs.append(_ob(f"multi/{i}/{place}", m, nplace=place, kplace=place))
+            obs.append(_ob(f"multi/{i}/{place}", m, nplace=place, kplace=place, link_pos="end" if place == "after" else "start"))
     if tier == "thorough":
         for i in range(300):
             n = rnd.choice([3, 3, 4])
